@@ -1,4 +1,5 @@
 import XvcPipeline.Props.C10
+import XvcPipeline.Unrepaired
 /-!
 # C13 — Concurrent step commands never exceed the configured process pool
 
@@ -42,10 +43,6 @@ theorem C13_serial_respects_deps {c : Cfg} {σ : Sys} (r : Reach c σ) (s d : Na
 
 /-! ### non-vacuity -/
 
-/-- three independent steps, pool 1 -/
-def demoPool : Cfg :=
-  { n := 3, deps := fun _ => [], pool := 1, rc := fun _ => run_always, noDeps := fun _ => true }
-
 /-- the bound is tight and the pool really blocks: step 0 runs, step 1 finds the pool full, cannot start, and starts
     after step 0 has ended -/
 example : (runL demoPool (init demoPool)
@@ -64,6 +61,19 @@ example : (runL demoPool (init demoPool)
     (fun σ => (cntP σ.proc 3, σ.slots, decide (σ.proc 1 = .running), decide (σ.proc 0 = .exited true))) =
     some (1, 0, true, true) := by decide
 
+/-! ### F6 (repaired by C13-F6.patch): the unrepaired counter was created inside `step_state_handler`
+
+One counter per step thread, each initialised to the pool size: no thread ever sees a slot taken by another one.
+Minimal model of that arrangement: `slots i` is the private counter of thread `i`, thread `i` starts its command when
+`slots i > 0`. -/
+
+/-- with private counters two commands run at the same time although the pool size is 1 -/
+theorem C13_F6_unrepaired_counterexample :
+    ∃ σ1 σ2, F6Step { running := fun _ => false, slots := fun _ => 1 } σ1 ∧ F6Step σ1 σ2 ∧
+      σ2.running 0 = true ∧ σ2.running 1 = true := by
+  refine ⟨_, _, .start _ 0 (by decide) rfl, .start _ 1 (by simp) (by simp), by simp, by simp⟩
+
+#print axioms C13_F6_unrepaired_counterexample
 #print axioms C13_pool_bound
 #print axioms C13_slots_exact
 #print axioms C13_pool_one_serial
